@@ -1,12 +1,15 @@
-(* Model/DequeWitness.v — the F15 witness as data (used by Proofs/DequeProofs.v for
-   [deque_aba_refuted] and, extracted, by the check, which compares it with the schedule the
-   harness executes on the real deque).
+(* Model/DequeWitness.v — the former F15 witness as data (used by Proofs/DequeProofs.v for
+   [aba_witness_immune] and, extracted, by the check, which compares it with the schedule the
+   harness executes on the real deque).  Before the repair of deque.hpp (link tags restarted at 0
+   on reuse) A's final link CAS succeeded against the re-created node and the drain returned
+   100,5,4; on the repaired code it fails and the drain returns 100,5,6.
    Thread 2 (the harness's main thread, running alone before the others start) prepares
    100,1 and a stale link: push_right 100, push_right 1, push_right 2, pop_right, push_left 3.
    Thread 0 (A) does push_right 4 and is stalled in stabilize_right between its second
    anchor check and its link CAS.  Thread 1 (B) does pop_right, pop_left, pop_right,
    push_right 5, push_right 6, which frees and re-creates the same two addresses through the
-   LIFO freelist.  Then A continues.  Thread 3 drains from the left. *)
+   LIFO freelist.  Then A continues: its link CAS fails and push_right returns (one step).
+   Thread 3 drains from the left. *)
 From Coq Require Import List NArith.
 From Pika Require Import Base.Conc Model.IndexQueue Model.DequeSpec Model.Deque.
 Import ListNotations.
@@ -23,6 +26,46 @@ Definition aba_progs (t : nat) : list dop :=
   end.
 (* schedule of the concurrent phase (threads 0 and 1): A runs 9 steps (alloc, init, load,
    store, anchor CAS, link load, check, link load, check — now before the link CAS), B runs its
-   five operations, A finishes *)
+   five operations, A finishes with the (failing) link CAS *)
 Definition aba_sched : list nat :=
-  repeat 0%nat 9 ++ repeat 1%nat 42 ++ repeat 0%nat 2.
+  repeat 0%nat 9 ++ repeat 1%nat 42 ++ repeat 0%nat 1.
+
+(* ---- second schedule: the other half of the repair.  Here the target link R0.right is written by
+   the PRIVATE STORE of push_left in both incarnations of R0: the main thread builds
+   [3(X); 51; 50; 1(R0)] with R0.right = (X, t+1) stale — R0 was pushed on the left of 100 (store
+   (Z, t)), 50 and 51 were pushed left of it, 100 was popped, 2 was pushed right of it on chunk X
+   (stabilize_right CAS (Z,t) -> (X,t+1)) and popped again, 3 re-uses X on the left.  A = push_right 4
+   is stalled before its link CAS with expected value (X, t+1).  B pops 4, 3, 1, re-pushes R0 (5) and
+   X (6) on the left, pops 50, 51, 6 and pushes 7 on the right, which re-uses X: stabilize_right
+   CASes R0.right from what push_left stored to (X, that tag + 1).  If alloc_node OR the private
+   store restarts the tag this is (X, t+1) again and A's CAS succeeds (drain 5,4: 4 twice, 7 lost —
+   observed on the real deque with either half of the fix reverted); on the repaired code the drain
+   is 5,7. ---- *)
+Definition aba2_progs (t : nat) : list dop :=
+  match t with
+  | 2%nat => [Push SR 100; Push SL 1; Push SL 50; Pop SR; Push SL 51; Push SR 2; Pop SR; Push SL 3]
+  | 0%nat => [Push SR 4]
+  | 1%nat => [Pop SR; Pop SL; Pop SR; Push SL 5; Push SL 6; Pop SR; Pop SR; Pop SL; Push SR 7]
+  | 3%nat => [Pop SL; Pop SL; Pop SL; Pop SL; Pop SL]
+  | _ => []
+  end.
+Definition aba2_sched : list nat :=
+  repeat 0%nat 9 ++ repeat 1%nat 70 ++ repeat 0%nat 1.
+
+(* ---- the mirror images of both schedules (left and right exchanged in the main thread's and in A's
+   and B's programs): they exercise stabilize_left and the LEFT link's tag — word 0 of the chunk,
+   whose pointer bits the freelist overwrites.  A corrupted left link is invisible to the drain from
+   the left (pop_left follows right links), so A pops [extra] times from the right after its push.
+   The code is symmetric, so B needs the same number of steps; A's tail is longer. ---- *)
+Definition mirror_op (o : dop) : dop :=
+  match o with Push s v => Push (opp s) v | Pop s => Pop (opp s) end.
+Definition mirror_progs (p : nat -> list dop) (extra : nat) (t : nat) : list dop :=
+  match t with
+  | 3%nat => p t
+  | 0%nat => map mirror_op (p t) ++ repeat (Pop SR) extra
+  | _ => map mirror_op (p t)
+  end.
+Definition aba3_progs := mirror_progs aba_progs 3.
+Definition aba4_progs := mirror_progs aba2_progs 2.
+Definition aba3_sched : list nat := repeat 0%nat 9 ++ repeat 1%nat 42 ++ repeat 0%nat 14.
+Definition aba4_sched : list nat := repeat 0%nat 9 ++ repeat 1%nat 70 ++ repeat 0%nat 9.
